@@ -380,3 +380,58 @@ Section Complete.
     rewrite (limited_mem_push_complete true fuel _ _ _ _ Lm G NF V D Sz Fu). reflexivity.
   Qed.
 End Complete.
+
+(* ------------------------------------------------------------------ the two verification paths agree *)
+(* content.ReadAll (memory store, FetchAll) and ioutil.CopyBuffer (OCI layout, file store)
+   accept exactly the same (reader, descriptor) pairs and hand on the same bytes. *)
+Section PathsAgree.
+  Variable H : str -> str -> str.
+  Variable comb : bool.
+  Local Open Scope nat_scope.
+
+  Lemma accepted_facts evs dg sz buf :
+    matches_desc H dg sz buf -> stream evs = buf ->
+    sz = Z.of_nat (length (stream evs)) /\ valid_digest dg = true /\ dg = digest_of H (alg_of dg) (stream evs).
+  Proof. intros (A1 & A2 & A3) S. subst buf. repeat split; auto; lia. Qed.
+
+  Theorem paths_agree fuel evs bufsz dg sz buf :
+    1 <= bufsz -> ev_weight evs < fuel ->
+    (fst (read_all H comb true fuel (mkBase evs None) dg sz) = (None, buf) <->
+     fst (copy_buffer H comb true fuel (mkBase evs None) bufsz dg sz) = (None, buf)).
+  Proof.
+    intros B1 Fu. split; intro E.
+    - destruct (read_all H comb true fuel (mkBase evs None) dg sz) as [[e b0] v] eqn:Er.
+      simpl in E. inversion E; subst.
+      pose proof (read_all_failing H comb true fuel evs dg sz buf v Er) as NF.
+      apply read_all_sound in Er as (A & _ & C). specialize (C eq_refl). simpl in C.
+      destruct (accepted_facts evs dg sz buf A C) as (-> & V & D). rewrite <- C.
+      apply copy_buffer_complete; auto.
+    - destruct (copy_buffer H comb true fuel (mkBase evs None) bufsz dg sz) as [[e b0] v] eqn:Ec.
+      simpl in E. inversion E; subst.
+      pose proof (copy_buffer_failing H comb fuel evs bufsz dg sz buf v Ec) as NF.
+      apply copy_buffer_sound in Ec as (A & _ & C). specialize (C eq_refl). simpl in C.
+      destruct (accepted_facts evs dg sz buf A C) as (-> & V & D). rewrite <- C.
+      apply read_all_complete; auto.
+  Qed.
+
+  (* hence a memory store and an OCI layout that do not hold the descriptor yet accept the
+     same pushes, and store the same bytes *)
+  Theorem stores_agree fuel m s d evs buf :
+    ev_weight evs < fuel -> mem_get m d = None -> oci_get s (d_dg d) = None ->
+    (mem_push H comb true fuel m d (mkBase evs None) = (None, (d, buf) :: m) <->
+     oci_push H comb true fuel s d (mkBase evs None) = (None, (d_dg d, buf) :: s)).
+  Proof.
+    intros Fu Gm Go.
+    pose proof (paths_agree fuel evs oci_bufsz (d_dg d) (d_sz d) buf oci_bufsz_pos Fu) as P.
+    unfold mem_push, oci_push. rewrite Gm, Go.
+    destruct (read_all H comb true fuel (mkBase evs None) (d_dg d) (d_sz d)) as [[e1 b1] v1] eqn:Er.
+    destruct (copy_buffer H comb true fuel (mkBase evs None) oci_bufsz (d_dg d) (d_sz d)) as [[e2 b2] v2] eqn:Ec.
+    simpl in P. split; intro E.
+    - destruct e1 as [e1|]; [discriminate|]. inversion E; subst b1.
+      assert (X : (e2, b2) = (None, buf)) by (apply P; reflexivity). inversion X; subst.
+      apply copy_buffer_sound in Ec as ((_ & _ & V) & _). rewrite V. reflexivity.
+    - destruct (negb (valid_digest (d_dg d))); [discriminate|].
+      destruct e2 as [e2|]; [discriminate|]. inversion E; subst b2.
+      assert (X : (e1, b1) = (None, buf)) by (apply P; reflexivity). inversion X; subst. reflexivity.
+  Qed.
+End PathsAgree.
